@@ -60,6 +60,19 @@ static void make_source(char *out, const char *text)
   p = vp_append(p, text);
   p = vp_append(p, "\n");
 }
+// MSP430 prints emulated instructions as "alias   --  real instruction": the alias is an annotation, the
+// instruction is what follows the separator
+static void strip_alias(char *t)
+{
+  for (int i = 0; t[i] != 0; i++)
+    if (t[i] == ' ' && t[i + 1] == ' ' && t[i + 2] == '-' && t[i + 3] == '-' && t[i + 4] == ' ' && t[i + 5] == ' ')
+    {
+      int k = i + 6; int j = 0;
+      while (t[k] != 0) t[j++] = t[k++];
+      t[j] = 0;
+      return;
+    }
+}
 extern "C" void harness_main()
 {
   Memory memory; memory.endian = ENDIAN;
@@ -77,6 +90,7 @@ extern "C" void harness_main()
 #ifdef STRIP_ANNOT
   // the decoder appends an annotation such as " (2048)" or "  (offset: 10)" to branch targets; it is not part of the instruction text
   { int L = (int)strlen(text); if (L > 3 && text[L - 1] == ')') { int k = L - 2; while (k > 0 && !(text[k] == '(' && text[k - 1] == ' ')) k--; if (k > 0) { k--; while (k > 0 && text[k - 1] == ' ') k--; text[k] = 0; } } }
+  strip_alias(text);
 #endif
   symx_note_str("T", text);
   symx_note("len", n);
@@ -98,6 +112,7 @@ extern "C" void harness_main()
   int d2 = DISASM_FN(&c1->memory, BASE, text2, sizeof(text2), FLAGS, &cmin, &cmax);
 #ifdef STRIP_ANNOT
   { int L = (int)strlen(text2); if (L > 3 && text2[L - 1] == ')') { int k = L - 2; while (k > 0 && !(text2[k] == '(' && text2[k - 1] == ' ')) k--; if (k > 0) { k--; while (k > 0 && text2[k - 1] == ' ') k--; text2[k] = 0; } } }
+  strip_alias(text2);
 #endif
   symx_note_str("T2", text2);
   symx_assert(same_instruction(text, text2), TAGGED(m1, "C07: re-assembled bytes disassemble to the same instruction (numbers compared by value)"));
